@@ -6,9 +6,9 @@ namespace Driver.C14
 open PV PV.Legacy
 
 def scaleF : ScaleFn := fun count size rate =>
-  let avg := Float.ofNat size / Float.ofNat count
+  let avg := Float.ofInt size / Float.ofInt count
   let scale := 1.0 / (1.0 - Float.exp (-avg / Float.ofNat rate))
-  ((Float.ofNat count * scale).toInt64.toInt, (Float.ofNat size * scale).toInt64.toInt)
+  ((Float.ofInt count * scale).toInt64.toInt, (Float.ofInt size * scale).toInt64.toInt)
 
 def cycF : CycFn := fun cycles period hz =>
   (Float.ofNat cycles * Float.ofNat period / (Float.ofNat hz / 1e9)).toInt64.toInt
@@ -51,7 +51,7 @@ def heapKind : Rd HeapKind := do
 def heapDoc : Rd HeapDoc := do
   pure { kind := ← heapKind, totInuseN := ← nat, totInuseB := ← nat, totAllocN := ← nat, totAllocB := ← nat,
          rate := ← opt nat, pad := ← nat, width := ← nat,
-         recs := ← list (do pure { fill := ← list filler, indent := ← nat, inuseN := ← nat, inuseB := ← nat,
+         recs := ← list (do pure { fill := ← list filler, indent := ← nat, inuseN := ← int, inuseB := ← int,
                                    allocN := ← nat, allocB := ← nat, addrs := ← list nat }),
          post := ← list filler, libs := ← bool, map := ← opt mapSection }
 
@@ -63,7 +63,7 @@ def contDoc : Rd ContDoc := do
     | 0 => pure .cyclesPerSecond | 1 => pure .samplingPeriod | 2 => pure .msSinceReset | 3 => pure .discarded
     | _ => failure
   pure { head := head,
-         attrs := ← list (do pure { fill := ← list filler, indent := ← nat, key := ← key, value := ← nat, spaced := ← bool }),
+         attrs := ← list (do pure { fill := ← list filler, indent := ← nat, key := ← key, value := ← int, spaced := ← bool }),
          width := ← nat,
          recs := ← list (do pure { fill := ← list filler, indent := ← nat, cycles := ← nat, count := ← nat,
                                    gap := ← nat, addrs := ← list nat }),
